@@ -289,7 +289,8 @@ pub fn run_line(line: &str) -> String {
     let cfg: Vec<&str> = w[0].split('/').collect();
     if cfg.len() != 3 { return "BAD-CASE".into(); }
     let (target, ba) = match target_of(cfg[0]) { Some(t) => t, None => return "BAD-CASE".into() };
-    let input = match input_of(&w[1..]) { Some(i) => i, None => return "BAD-CASE".into() };
+    // a failure of the generator is not a failure of the compiler
+    let input = match catch(|| input_of(&w[1..])) { Ok(Some(i)) => i, _ => return "BAD-CASE".into() };
     let name: Option<String> = if cfg[1] == "name" {
         let t = &input.text;
         Some(t.find("Pipeline ").and_then(|i| t[i + 9..].split(|c: char| !(c.is_alphanumeric() || c == '_')).next().map(|s| s.to_string())).filter(|s| !s.is_empty()).unwrap_or("Main".into()))
